@@ -218,7 +218,7 @@ func runC17(p *Program, r *Result) {
 			}
 		}
 		{
-			okLoop := loop != nil && len(loop.earlyExits()) == 0
+			okLoop := loop != nil && len(p.loopEarlyExits(loop)) == 0
 			if okLoop {
 				// in-loop: !ContainsRune(allowed, r) -> return false ; true only after the loop
 				okLoop = false
